@@ -207,6 +207,18 @@ Section Download.
                end)).
 End Download.
 
+(* ---- a history: any number of installation calls one after the other on the same install directory,
+   each with its own server behaviour, untar behaviour, attempt count and flags *)
+Record call := mkCall { k_srv : server; k_untar : bytes -> bool; k_attempts : nat; k_force : bool; k_noclean : bool }.
+
+Fixpoint run_calls (sha : bytes -> string) (name expected : string) (cs : list call) (s : lstate) : lstate :=
+  match cs with
+  | [] => s
+  | c :: cs' =>
+    run_calls sha name expected cs'
+      (final (install_n sha (k_srv c) name expected (k_untar c) (k_attempts c) (k_force c) (k_noclean c) s))
+  end.
+
 (* ---- an honest server for an archive [good]: tells the true size, honours Range *)
 Fixpoint sskip (n : nat) (s : string) : string :=
   match n, s with
